@@ -130,12 +130,17 @@ def shrink_graph(g, still_fails, budget=1500):
         cur = {sw.get(k, k): tuple(sw.get(t, t) for t in v) for k, v in cur.items()}
         names[0], names[entry] = names[entry], names[0]
     calls = 0
+    import os
+    import time
+
+    # the clock only bounds how small the replay file gets, never a verdict
+    deadline = time.monotonic() + float(os.environ.get("VPBT_SHRINK_SECONDS", "45"))
 
     def named(c, nm):
         return {nm[i]: tuple(nm[t] for t in c[i]) for i in sorted(c)}
 
     improved = True
-    while improved and calls < budget:
+    while improved and calls < budget and time.monotonic() < deadline:
         improved = False
         cands = []
         for k in sorted(cur, reverse=True):
@@ -160,7 +165,7 @@ def shrink_graph(g, still_fails, budget=1500):
                 cur, names = c2, nm
                 improved = True
                 break
-            if calls >= budget:
+            if calls >= budget or time.monotonic() >= deadline:
                 break
     return named(cur, names)
 
@@ -239,7 +244,7 @@ def oracle_c06(g, scfg, originals, stage):
         # after branch restructuring a path-insensitive analysis over-approximates (an arm that is only taken for one
         # value of a head's variable is merged with the other arms), so the static clause is asserted for the stages
         # before it and only counted afterwards; the valuation-exact exploration below decides those.
-        if stage in ("branch", "restructure") and v.clause in ("V-must", "V-must-latch"):
+        if stage not in ("closed", "loop") and v.clause in ("V-must", "V-must-latch"):
             stats["static_must_overapprox"] = 1
         else:
             raise
